@@ -271,6 +271,19 @@ func c03Files(c *Ctx) {
 			if over || !sameTrace(got, wantRecs) {
 				k.Failf("file-reader", "Reader items differ:\n got  %s\n want %s", traceString(got), traceString(wantRecs))
 			}
+			// the same file with its final line end stripped (header-only files, and files that end in a header, too)
+			if t := text.Bytes(); len(t) > 0 && !k.Failed() {
+				t2 := bytes.TrimSuffix(t, []byte("\n"))
+				got, over := collect(codecByName("samh").seq(bytes.NewReader(t2)), len(want)+5)
+				if over || !sameTrace(got, want) {
+					k.Failf("file-readerheader", "ReaderHeader on the file WITHOUT its final newline (%d header lines, %d records):\n got  %s\n want %s", nh, nr, traceString(got), traceString(want))
+				}
+				got, over = collect(codecByName("sam").seq(bytes.NewReader(t2)), len(want)+5)
+				if over || !sameTrace(got, wantRecs) {
+					k.Failf("file-reader", "Reader on the file WITHOUT its final newline:\n got  %s\n want %s", traceString(got), traceString(wantRecs))
+				}
+				k.Count("files_without_final_newline", 1)
+			}
 			k.Count("files", 1)
 			k.Count("header_lines", int64(nh))
 			k.Count("file_records", int64(nr))
